@@ -2008,7 +2008,7 @@ class ThreeFrameTVG():
                     right_part.split_node(1)
                 else:
                     fake_stop = AminoAcidSeqRecordWithCoordinates(
-                        seq='*', locations=[]
+                        seq=Seq('*'), locations=[]
                     )
                     fake_stop_node = PVGNode(
                         seq=fake_stop,
